@@ -302,7 +302,7 @@ class AllocBounds final : public vf::Family {
       const long n0 = vf::L().news;
       long expect = 0;
       const char* what = "";
-      switch (c.H(1) % 5) {
+      switch (c.H(5) % 7) {  // (H(5) is drawn from 0..39)
         case 0: {
           what = "MakeFuture(rvalue)";
           auto f = yaclib::MakeFuture<HeapVal>(std::move(v0));
@@ -331,6 +331,26 @@ class AllocBounds final : public vf::Family {
             return x;
           });
           expect = 2;
+          (void)std::move(f).Get();
+          break;
+        }
+        case 5: {
+          what = "MakeFuture(rvalue).ThenInline(exception_ptr recovery, skipped).Get()";
+          auto f = yaclib::MakeFuture<HeapVal>(std::move(v1)).ThenInline([](std::exception_ptr) {
+            return HeapVal{};
+          });
+          expect = 2;
+          (void)std::move(f).Get();
+          break;
+        }
+        case 6: {
+          what = "MakeFuture(rvalue).ThenInline(error recovery, skipped).ThenInline(pass through).Get()";
+          auto f = yaclib::MakeFuture<HeapVal>(std::move(v2)).ThenInline([](yaclib::StopError) {
+            return HeapVal{};
+          }).ThenInline([](HeapVal x) {
+            return x;
+          });
+          expect = 3;
           (void)std::move(f).Get();
           break;
         }
